@@ -22,6 +22,23 @@ def grid(x, n=N, tol=1e-6):
     return out
 
 
+_META_CODES = {}
+
+
+def meta_code(md):
+    """The metadata of a trajectory as one integer: the temperature when that is all there is (what the constructors of this driver
+    pass), otherwise a code of the whole dict -- so that an added, removed or changed entry is a change of the object."""
+    if not isinstance(md, dict):
+        return -1
+    if set(md) == {'temperature'}:
+        try:
+            return int(md['temperature'])
+        except (TypeError, ValueError):
+            pass
+    key = repr(sorted((str(k), repr(v)) for k, v in md.items()))
+    return 1000000 + _META_CODES.setdefault(key, len(_META_CODES))
+
+
 def project(t):
     """Abstract projection of a live object from public attributes only (no method call, no mutation)."""
     coords = np.array(t.coords, dtype=float)
@@ -33,7 +50,7 @@ def project(t):
     ok = k != OFFGRID
     k = np.where(ok, np.mod(k, N), OFFGRID)
     sp = [SP_NAMES.index(s.symbol) for s in t.species]
-    return {'pos': k.tolist(), 'sp': sp, 'dt': int(round(t.time_step * 1e15)), 'meta': int(t.metadata.get('temperature', -1)),
+    return {'pos': k.tolist(), 'sp': sp, 'dt': int(round(t.time_step * 1e15)), 'meta': meta_code(t.metadata),
             'dead': False}
 
 
